@@ -4,7 +4,7 @@ from collections import Counter
 
 from ..loader import AnalysisError, attr_path, src, walk_no_nested_defs, norm_stmt, call_name
 from ..symx import show, C, is_const
-from ..genabs import (Game, Poly, Undecided, position_cases, model_edges, wrap_column, is_last_row, OWNER, P1, P2, PR, FRESH)
+from ..genabs import (Game, Poly, Undecided, WrongTile, position_cases, model_edges, wrap_column, is_last_row, OWNER, P1, P2, PR, FRESH)
 
 EXPLANATION = (
     "Abstract bisimulation between the emitted games and a rule model of Roborta, for all board sizes at once: the "
@@ -102,6 +102,12 @@ class Pairing:
                             continue
                         try:
                             ce, entry = G.entry(block, case, m, lt)
+                        except WrongTile as e:
+                            pr = (self.where(block), str(e), "the builders read the board only at the tile whose state they build", "another tile's entry",
+                                  "%s block %d reads another tile" % (self.gname, b))
+                            if pr[4] not in [q[4] for q in self.problems]:
+                                self.problems.append(pr)
+                            continue
                         except Undecided as e:
                             self.undecided.append(("%s block %d (%s)" % (self.gname, b, block.builder), str(e)))
                             continue
@@ -352,7 +358,13 @@ def structure_rules(ctx, chk, G, gname, pairing, rule="C08.2"):
 def argument_swap_rule(ctx, chk, rule="C08.3", modules=("roberta_generator.py", "stochastic_game_from_roborta_board.py")):
     """A positional argument that is a bare name equal to the name of a *different* parameter of the callee."""
     n = hits = 0
+    # the board and its parameters, as the entry points name them: these travel down the call chain under their own names
+    watch = set()
     for f in ctx.prog.all_funcs(modules):
+        if not f.cls and f.name in ("write_robots", "gen_rnd_board", "create_sg_from_board", "check_input"):
+            watch |= set(f.params)
+    for f in ctx.prog.all_funcs(modules):
+        own = set(f.params) | {x.id for x in walk_no_nested_defs(f.node) if isinstance(x, ast.Name) and isinstance(x.ctx, ast.Store)}
         for call, callees in ctx.cg.call_sites(f):
             if len(callees) != 1:
                 continue
@@ -363,6 +375,15 @@ def argument_swap_rule(ctx, chk, rule="C08.3", modules=("roberta_generator.py", 
                 if name is None or pos >= len(params):
                     continue
                 n += 1
+                want = params[pos]
+                if isinstance(a, ast.Name) and name != want and name not in params and want in own and name in own and want in watch and name in watch:
+                    # the caller has its own `want` and hands over another of the board's parameters instead
+                    defs = [st for st in walk_no_nested_defs(f.node) if isinstance(st, ast.Assign) and any(isinstance(t, ast.Name) and t.id == name for t in st.targets)]
+                    if not (defs and all(isinstance(st.value, ast.Name) and st.value.id == want for st in defs)):
+                        hits += 1
+                        chk.violation(rule, f.where(call), "`%s` is passed as argument %d (`%s`) of %s although %s has its own `%s`: the game is built with the wrong parameter" % (
+                            name, pos + 1, want, g.short, f.short, want), expected="%s" % want, found=name, construct="%s -> %s argument %s := %s" % (f.short, g.short, want, name))
+                        continue
                 if name != params[pos] and name in params:
                     hits += 1
                     chk.violation(rule, f.where(call), "`%s` is passed as argument %d (`%s`) of %s, which also has a parameter named `%s`: arguments exchanged" % (
